@@ -47,7 +47,7 @@ TARGETS = [
     "sigma.rule.detection:SigmaDetection.postprocess",
 ]
 BOUNDS = {
-    "rule shapes": "conditions with 1..3 operands (quick: 2 operands over the full 24-entry detection pool, 3 operands over a 6-entry sub-pool), 0..1 'not' per operand, and/or, one optional (negated) parenthesised span; each operand one of the pool detections",
+    "rule shapes": "conditions with 1..3 operands (quick: 2 operands over the full 26-entry detection pool, 3 operands over a 6-entry sub-pool), 0..1 'not' per operand, and/or, one optional (negated) parenthesised span; each operand one of the pool detections",
     "configurations": "13 backend configurations (6 target precedence orders, parenthesize, in-list off / with wildcards, no string operators, native CIDR, no explicit not-exists, NOT as not-equals)",
     "leaf rendering": "symbolic value string len <= 3 over full Unicode x 4 operator-availability configurations x plain/cased",
     "truth assignments": "all (symbolic, decided by the solver per shape)",
@@ -84,6 +84,8 @@ POOL = [
     {"f25|startswith|cased": "v25"},
     {"f26|contains": ["p*q", "r"]},
     {"f27|re|i": "a+b"},
+    {"f28|base64offset|contains": "\u00fcb"},
+    {"f29|wide|base64": "ab"},
 ]
 SUBPOOL = [0, 1, 2, 3, 5, 6]
 POOLS = {0: list(range(len(POOL))), 1: SUBPOOL, 2: [0, 2], 3: [0, 3], 4: [0, 1, 2, 5], 5: [0, 8, 9]}  # selectable operand pools (VERIF_PL0..2)
